@@ -17,6 +17,7 @@ import (
 	"io"
 	"math/big"
 	"os"
+	"runtime/debug"
 	"strings"
 
 	cbor "github.com/fxamacker/cbor/v2"
@@ -262,7 +263,7 @@ func applySscMode(e *document.ChipAuthEvidence, mode byte, r *rd) {
 			e.SmSsc[i] = 0xff
 		}
 	case 4:
-		e.SmSsc = append([]byte{0x01}, make([]byte, n)...)
+		e.SmSsc = append([]byte{0x02}, make([]byte, n)...) // value-1 needs n+1 bytes
 	case 5:
 		e.SmSsc = make([]byte, 1025)
 		e.SmSsc[0] = 0x7f
@@ -437,6 +438,35 @@ func caSelect(si *document.SecurityInfos) (keyID *big.Int, ec bool, bs int, ok b
 	return nil, false, 0, false
 }
 
+// caKeyIDHazard: the preferred ChipAuthenticationInfo has a keyId and a public
+// key of the matching type without keyId is met before a match (F9).
+func caKeyIDHazard(si *document.SecurityInfos) bool {
+	if si == nil {
+		return false
+	}
+	keyID, ec, _, ok := caSelect(si)
+	if !ok || keyID == nil {
+		return false
+	}
+	target := oid.OidPkDh
+	if ec {
+		target = oid.OidPkEcdh
+	}
+	for i := range si.ChipAuthPubKeyInfos {
+		pk := &si.ChipAuthPubKeyInfos[i]
+		if !pk.Protocol.Equal(target) {
+			continue
+		}
+		if pk.KeyId == nil {
+			return true
+		}
+		if keyID.Cmp(pk.KeyId) == 0 {
+			return false
+		}
+	}
+	return false
+}
+
 // caHazard returns the known-finding class of a chipauth.VerifyEvidence call.
 func caHazard(doc *document.Document, e *document.ChipAuthEvidence) string {
 	if e == nil || len(e.TermPri) == 0 || len(e.TermPubKey) == 0 || len(e.SmRapdu) == 0 {
@@ -460,19 +490,10 @@ func caHazard(doc *document.Document, e *document.ChipAuthEvidence) string {
 	if ec {
 		target = oid.OidPkEcdh
 	}
-	if keyID != nil {
-		for i := range si.ChipAuthPubKeyInfos {
-			pk := &si.ChipAuthPubKeyInfos[i]
-			if !pk.Protocol.Equal(target) {
-				continue
-			}
-			if pk.KeyId == nil {
-				return kfKeyID
-			}
-			if keyID.Cmp(pk.KeyId) == 0 {
-				break
-			}
-		}
+	_ = target
+	_ = keyID
+	if caKeyIDHazard(si) {
+		return kfKeyID
 	}
 	if len(e.SmSsc) > 0 {
 		v := new(big.Int).SetBytes(e.SmSsc)
@@ -891,8 +912,13 @@ type genChip struct {
 	inMF      bool
 }
 
+var lastStack string
+
 func (c *genChip) Transceive(cla, ins, p1, p2 int, data []byte, le int, encoded []byte) []byte {
 	c.exchanges++
+	if os.Getenv("C12_DEBUG") != "" {
+		lastStack = fmt.Sprintf("ins=%02x p1=%02x p2=%02x data=%x\n%s", ins, p1, p2, data, debug.Stack())
+	}
 	out := c.reply(ins, p1, p2, data, le)
 	c.replied += len(out)
 	return out
@@ -977,12 +1003,43 @@ const sampleMRZ = "I<UTOERIKSSON<<ANNA<MARIA<<<<<<<<<<<D231458907UTO7408122F1204
 const readerCmdBytes = 64
 
 // runReader:  [flags][chunkMode][maxEx] docSpec... script...
+// readerView: what NfcSession.ReadFile hands to the constructor: the first
+// header (which must fit into the first four bytes read) decides how many bytes
+// are fetched, a longer file is cut there.
+func readerView(f []byte) []byte {
+	c := &cursor{b: f[:min(len(f), 4)]}
+	if _, ok := parseTag(c); !ok {
+		return nil
+	}
+	l, ok := parseLen(c)
+	if !ok || l < 0 {
+		return nil
+	}
+	total := int(l) + c.p
+	if total <= len(f) {
+		return f[:total]
+	}
+	return f
+}
+
 func runReader(t TB, flags byte, chunkMode int, s *docSpec, script []byte) int {
 	for k, f := range s.Files {
 		if f != nil {
-			if h := ctorHazard(k, f); h != "" && excluded(h) {
-				return -1
+			for _, view := range [][]byte{f, readerView(f)} {
+				if h := ctorHazard(k, view); h != "" && excluded(h) {
+					if os.Getenv("C12_DEBUG") != "" {
+						fmt.Println("reader hazard", h, kindName[k], len(view))
+					}
+					return -1
+				}
 			}
+		}
+	}
+	if f := readerView(s.Files[kDG14]); f != nil {
+		var d14 *document.DG14
+		protect(func() { d14, _ = document.NewDG14(f) })
+		if d14 != nil && caKeyIDHazard(d14.SecInfos) && excluded(kfKeyID) {
+			return -1
 		}
 	}
 	var blobs [][]byte
@@ -990,8 +1047,11 @@ func runReader(t TB, flags byte, chunkMode int, s *docSpec, script []byte) int {
 	if altCurveHazardBlob(blobs...) && excluded(kfAltCurve) {
 		return -1
 	}
-	if sc := scanDecode(script); flags&1 != 0 && sc.lie >= lieMin && excluded(kfLie) {
-		return -1
+	// every scripted reply may be handed to tlv.Decode by the protocol code (PACE / CA / BAC)
+	for sr := (&genChip{script: &rd{b: script}}); sr.script.left() > 0; {
+		if sc := scanDecode(rapduData(sr.scripted())); sc.lie >= lieMin && excluded(kfLie) {
+			return -1
+		}
 	}
 	maxEx := 300
 	chip := &genChip{spec: s, script: &rd{b: script}, rawMode: flags&1 != 0, chunkMode: chunkMode % 4, maxEx: maxEx}
@@ -1048,7 +1108,7 @@ func runReader(t TB, flags byte, chunkMode int, s *docSpec, script []byte) int {
 			}
 			evid.Metric("reader-recovered-panic-sample", msg)
 			if os.Getenv("C12_DEBUG") != "" {
-				fmt.Println("RECOVERED:", msg, hx(script))
+				fmt.Println("RECOVERED:", msg, hx(script), "flags", flags, "\n", lastStack)
 			}
 		}
 	}
